@@ -190,7 +190,7 @@ def run():
                                "num=%d" % num, vf.SEED * 10 + i) for i, (bad, shapes, num, ev) in enumerate(sims)]
             f_ex = ex.submit(behaviours, chk, sd, gen_cfg(["r1", "r2"], ["r2"], [SHAPES[1]], 2, depth=30, evicting_only=False), "gen exhaustive 2 requests") if thorough else None
             # T driver starts right away (it needs nothing from TLC)
-            f_conc = ex.submit(concurrent, ov, sd, root, 48 if thorough else 8, 48 if thorough else 16)
+            f_conc = ex.submit(concurrent, ov, sd, root, 32 if thorough else 8, 32 if thorough else 16)
             # 1. the repaired design satisfies C42 (exhaustive at the stated bound)
             r = vf.tlc_ok(f_mc.result(), "ServiceIsolation MC")
             chk.add_tlc(r, "MC repaired design")
@@ -283,16 +283,19 @@ def run():
                     if chk.cov["trace_event_counts"].get(k, 0) < v:
                         raise vf.NoVerdict("concurrent driver too weak: %d %s events" % (chk.cov["trace_event_counts"].get(k, 0), k))
                 # 5. binding self-test (T): a corrupted response field and a dropped event must be rejected
+                # (on the first recorded blocks only: validating the whole log again twice would double the cost)
                 rng = random.Random(vf.SEED)
-                resps = [i for i, e in enumerate(evs) if e["ev"] == "Resp" and e["status"] == 200]
-                saves = [i for i, e in enumerate(evs) if e["ev"] == "Finish" and e["saved"]]
+                resets = [i for i, e in enumerate(evs) if e["ev"] == "Reset"]
+                cut = resets[3] if len(resets) > 3 else len(lines)
+                resps = [i for i, e in enumerate(evs[:cut]) if e["ev"] == "Resp" and e["status"] == 200]
+                saves = [i for i, e in enumerate(evs[:cut]) if e["ev"] == "Finish" and e["saved"]]
                 if not resps or not saves:
-                    raise vf.NoVerdict("self-test: the recorded batches contain no successful response / no saved symbols")
+                    raise vf.NoVerdict("self-test: the first recorded batches contain no successful response / no saved symbols")
                 i = rng.choice(resps)
                 e = json.loads(lines[i]); k = sorted(e["body"])[0]; e["body"][k] = "r999_" + k
-                c1 = lines[:i] + [json.dumps(e)] + lines[i + 1:]
+                c1 = lines[:i] + [json.dumps(e)] + lines[i + 1:cut]
                 j = rng.choice(saves)
-                c2 = lines[:j] + lines[j + 1:]
+                c2 = lines[:j] + lines[j + 1:cut]
                 with ThreadPoolExecutor(max_workers=2) as ex:
                     def val(cl, nm):
                         pth = os.path.join(sd, "corrupt-%s.ndjson" % nm)
